@@ -94,6 +94,11 @@ def ensure_facts(repo=REPO, all_targets=False, quiet=False):
     os.makedirs(CACHE, exist_ok=True)
     build_driver()
     key, nfiles = tree_key(repo)
+    # facts depend on the extractor as well as on the tree
+    try:
+        key += "-d" + hashlib.sha256(open(os.path.join(VERIF, "driver", "src", "main.rs"), "rb").read()).hexdigest()[:6]
+    except OSError:
+        pass
     if all_targets:
         key += "-all"
     if os.path.abspath(repo) != "/repo":
